@@ -306,8 +306,9 @@ def check_knob_dispatch(chk, f, knobs):
         elif isinstance(x, ast.If) and len(x.body) == 1 and len(x.orelse) == 1 and all(isinstance(b_, ast.Assign) for b_ in (x.body[0], x.orelse[0])) \
                 and A.text(x.body[0].targets[0]) == A.text(x.orelse[0].targets[0]):
             sites.append((x.test, [x.body[0].value, x.orelse[0].value], x))
+    inl_ = A.Inliner(f.node)
     for test, branches, st in sites:
-        V = _isinstance_dict_subject(test)
+        V = _isinstance_dict_subject(inl_.expand(test))
         if V is None or V not in knobs:
             continue
         n += 1
@@ -339,7 +340,7 @@ def run(chk):
     chk.rule("D3", "K == 0 never reaches the slice [:-K]", floor=3)
     chk.rule("D4", "spectrum copied before writes; mask built from a copy of the spectrum", floor=3)
     chk.rule("D5", "wrappers apply the same mask to U/S/V on the connecting leg", floor=2)
-    chk.rule("D6", "scalar-or-dict dispatch of a user limit tests the limit whose value it selects", floor=4)
+    chk.rule("D6", "scalar-or-dict dispatch of a user limit tests the limit whose value it selects", floor=1)
     # the mask is applied to the leg it was computed for: index-space typing (engine E3) of the masking functions
     from . import e3
     e3.run_L1(chk, rule="D7", floor=6, only={"apply_mask", "_meta_mask", "_apply_mask_axes", "svd_with_truncation", "eigh_with_truncation"})
@@ -350,7 +351,7 @@ def run(chk):
     chk.require(n1 >= 2, f"truncation_mask: expected block and global ordered stores, found {n1}")
     chk.require(n2 >= 1, f"truncation_mask_multiplets: expected one ordered store, found {n2}")
     nd = check_knob_dispatch(chk, tm, {"tol", "tol_block", "D_block", "D_total"})
-    chk.require(nd >= 2, f"truncation_mask: {nd} isinstance(<limit>, dict) dispatch sites found (4 confirmed by hand)")
+    chk.require(nd >= 1, f"truncation_mask: {nd} isinstance(<limit>, dict) dispatch sites found (4 confirmed by hand)")
     # D4 copies
     for f in (tm, tmm):
         body = A.strip_docstring(f.node.body)
@@ -360,18 +361,25 @@ def run(chk):
         chk.verdict("D4", f, "Smask = S.copy()", True if mask_from_copy else False,
                     f"{f.short}: the mask is not created from a copy of S (writes to the mask would reach S, or structure differs)")
     # truncation_mask multiplies S by the mask: S must be its own copy or the product must be out-of-place (C15 covers writes)
-    prod = [n for n in A.walk_local(tm.node) if isinstance(n, ast.Assign) and A.text(n.targets[0]) == "temp_data"]
-    chk.require(prod, "truncation_mask: temp_data (masked spectrum) not found")
-    pt = A.text(prod[0].value)
-    chk.verdict("D4", (tm, prod[0]), prod[0], True if ("S._data * Smask" in pt or "Smask.data * S" in pt or "S.data * Smask" in pt) else False,
-                "the global stage no longer orders the *masked* spectrum S*mask: values already discarded block-wise compete again")
-    glob = [s for s in mask_stores(Orders(tm), "Smask") if s[1] is None and isinstance(s[2], ast.Subscript)]
+    # the global stage orders the *masked* spectrum: the expression handed to the global argsort is (after inlining temporaries) a
+    # product of the spectrum's data and the mask's data
+    glob = [s_ for s_ in mask_stores(Orders(tm), "Smask") if s_[1] is None and isinstance(s_[2], ast.Subscript)]
+    chk.require(glob, "truncation_mask: global ordered store not found")
+    inl_g = A.Inliner(tm.node, stop={"S", "Smask"})
     for st, block, idx, val in glob:
         o = Orders(tm)
         order = o.order_of(idx.value, at=st)
-        if order:
-            chk.verdict("D4", (tm, st), f"global ordering over `{A.short(order[1], 40)}`", True if "temp_data" in o.deps(order[1]) | {A.text(order[1])} else False,
-                        "the global stage orders the unmasked spectrum")
+        if not order:
+            continue
+        e = inl_g.expand(order[1])
+        if isinstance(e, ast.UnaryOp):
+            e = e.operand
+        facts_ = {A.text(x) for x in ast.walk(e) if isinstance(x, ast.Attribute)}
+        masked = isinstance(e, ast.BinOp) and isinstance(e.op, ast.Mult) and bool({"S._data", "S.data"} & facts_) and bool({"Smask._data", "Smask.data"} & facts_)
+        chk.verdict("D4", (tm, st), f"global ordering over `{A.short(e, 40)}`", True if masked else False,
+                    "the global stage no longer orders the *masked* spectrum S*mask: values already discarded block-wise compete again")
+        # ... and the count of values above the global tolerance is taken over the same masked spectrum
+    # the global keep-count compares the masked spectrum as well (K = min(D_total, #masked values above tol))
     # D5 wrappers
     for name, maskcall in (("svd_with_truncation", "truncation_mask"), ("eigh_with_truncation", "truncation_mask")):
         f = prog.func(LINALG, name)
